@@ -159,6 +159,10 @@ func c11Cut(x *c11Ctx, trunk, dir string, k int) {
 		cut.ArmWrite(int64(k))
 	case "a-read":
 		cut.ArmRead(int64(k))
+	case "a-write-transient":
+		// the trunk fails once, in the middle of a write (a short write with an error), and stays open
+		cut.ArmWrite(int64(k))
+		cut.Transient()
 	}
 	ma := multiplex.Multiplex(cut)
 	mb := multiplex.Multiplex(b)
@@ -198,7 +202,15 @@ func c11Cut(x *c11Ctx, trunk, dir string, k int) {
 	if !x.awaitAll("writer-blocked", map[string]chan struct{}{"writer A": wa, "writer B": wb}) {
 		return
 	}
-	if !cut.WasCut() {
+	if dir == "a-write-transient" {
+		if !cut.Faulted() {
+			cut.CutNow() // the offset lies at/after the end of the exchange
+		} else if !x.awaitAll("read-after-failure", map[string]chan struct{}{"reader B1 (peer of the failed writer)": readers["B1"].done, "reader A1": readers["A1"].done}) {
+			// nothing but the multiplexer itself closes the trunk here
+			cut.CutNow()
+			return
+		}
+	} else if !cut.WasCut() {
 		// the armed offset lies at/after the end of the exchange: cut now (after all bytes)
 		cut.CutNow()
 	}
@@ -532,6 +544,52 @@ func c11Listener(x *c11Ctx, trunk string, closers int) {
 	}
 }
 
+// c11ListenerRace: many goroutines close one wrapped listener at the same moment, together with its Mux,
+// over and over: closing concurrently never panics (a panic ends the child and is attributed by the
+// parent) or hangs, and a blocked Accept returns.
+func c11ListenerRace(x *c11Ctx, rounds, closers int) {
+	for r := 0; r < rounds; r++ {
+		a, b := net.Pipe()
+		ma := multiplex.Multiplex(a)
+		l, err := ma.Listen(multiplex.ConnID(6 + r%3))
+		if err != nil {
+			x.viol("C11/listen-error", err.Error())
+			return
+		}
+		acc := make(chan struct{})
+		go func() {
+			defer close(acc)
+			l.Accept() // hands the connection out
+			l.Accept() // blocks until the listener is closed
+		}()
+		start := make(chan struct{})
+		cd := map[string]chan struct{}{"Accept": acc}
+		for i := 0; i < closers; i++ {
+			d := make(chan struct{})
+			cd[fmt.Sprintf("listener closer %d", i)] = d
+			go func(i int) {
+				defer close(d)
+				<-start
+				if i == closers-1 && r%2 == 0 {
+					ma.Close()
+				}
+				l.Close()
+			}(i)
+		}
+		if r%4 == 0 {
+			time.Sleep(50 * time.Microsecond) // let Accept block first
+		}
+		close(start)
+		ok := x.awaitAll("closer", cd)
+		ma.Close()
+		b.Close()
+		if !ok {
+			return
+		}
+	}
+	x.res.Count("listener_close_race_rounds", int64(rounds))
+}
+
 // --- scenario F: handle lifecycle: close, reopen, stale close ---------------------------------------
 
 func c11Lifecycle(x *c11Ctx, trunk string, variant int) {
@@ -658,7 +716,7 @@ func runC11(c *ev.ChildEnv, res *ev.Result) {
 			dir   string
 			total int
 			b     map[int]bool
-		}{{"a-write", ta, bounds(c11ScriptA)}, {"a-read", tb, bounds(c11ScriptB)}} {
+		}{{"a-write", ta, bounds(c11ScriptA)}, {"a-read", tb, bounds(c11ScriptB)}, {"a-write-transient", ta - 1, bounds(c11ScriptA)}} {
 			for k := 0; k <= d.total; k++ {
 				if thorough || d.b[k] || k%7 == c.Batch%7 {
 					cuts = append(cuts, cutCase{trunk, d.dir, k})
@@ -732,6 +790,14 @@ func runC11(c *ev.ChildEnv, res *ev.Result) {
 			res.Eval()
 			c11Listener(x, trunk, closers)
 			res.Seen(fmt.Sprintf("listener|%s|%d", trunk, closers))
+		}
+		if trunk == "pipe" {
+			n := tierN(c.Tier, 400, 4000)
+			c.WAL("listener close race x%d", n)
+			x := &c11Ctx{res: res, what: map[string]any{"scenario": "listener-close-race", "closers": 8, "rounds": n}}
+			res.Eval()
+			c11ListenerRace(x, n, 8)
+			res.Seen("listener-close-race|8")
 		}
 		for _, how := range []string{"local-close", "remote-close", "trunk-cut"} {
 			c.WAL("open-after %s %s", trunk, how)
